@@ -18,8 +18,8 @@ HEADER = """From Coq Require Import Arith List Bool.
 From OQ Require Import Model.Progress.
 Import ListNotations.
 Definition code (t : timer) : nat := match t_stat t with New => 0 | Armed => 1 | Cancelled => 2 | Fired => 3 end.
-Definition obs (ops : list op) : list nat :=
-  let s := fold_left step ops init in pending s :: map code (timers s)."""
+Definition obs (ops : list fop) : list nat :=
+  let s := fold_left fstep ops init in pending s :: map code (timers s)."""
 
 STAT = {"new": 0, "armed": 1, "cancelled": 2, "fired": 3}
 
@@ -69,20 +69,41 @@ class FakeTimer:
             self.state = "cancelled"
 
 
+class FlakyStream(io.StringIO):
+    """an output stream that raises on write while [broken] is set"""
+    broken = False
+
+    def write(self, text):
+        if self.broken:
+            raise OSError("stream closed")
+        return super().write(text)
+
+
 class Rig:
-    """A real ProgressBar wired to FakeTimers."""
+    """A real ProgressBar wired to FakeTimers and to a stream that can be made to fail."""
 
     def __init__(self):
         FakeTimer.registry = []
         self.pending = []
-        self.buf = io.StringIO()
+        self.buf = FlakyStream()
+        self.raised = []
         with contextlib.redirect_stdout(self.buf):
             self.bar = outil.ProgressBar(10, None)
 
     def do(self, op):
         # the bar writes to the stream it captured at construction (self.buf); no global redirect here,
         # because redirect_stdout is process-wide and this method runs on two threads
-        if op == "E":
+        if op in ("Uf", "Xf", "Rf"):
+            # the same operation with the output stream failing: the exception is the caller's to see
+            self.buf.broken = True
+            try:
+                self.do(op[0])
+                self.raised.append(False)
+            except OSError:
+                self.raised.append(True)
+            finally:
+                self.buf.broken = False
+        elif op == "E":
             self.bar.enter()
         elif op == "U":
             self.bar.update(1)
@@ -104,20 +125,25 @@ class Rig:
 
 
 def op_lit(op):
-    return {"E": "Enter", "U": "Update", "X": "Exit", "R": "Run"}.get(op) or f"Fire {int(op[1:])}"
+    base = {"E": "Enter", "U": "Update", "X": "Exit", "R": "Run"}
+    if op in ("Uf", "Xf", "Rf"):
+        return f"PFail {base[op[0]]}"
+    return "POk " + (base.get(op) or f"(Fire {int(op[1:])})")
 
 
-def traces(maxlen):
-    """all op sequences after Enter over {U, X, R, Fi} with i among existing timers"""
+def traces(maxlen, failing=False):
+    """all op sequences after Enter over {U, X, R, Fi} with i among existing timers; with [failing] also the
+    variants of U, X, R whose print raises (only the sequences containing at least one of them are returned)"""
     out = []
+    alphabet = ["U", "X", "R"] + (["Uf", "Xf", "Rf"] if failing else [])
 
     def rec(prefix, ntimers):
-        if len(prefix) > 1:
+        if len(prefix) > 1 and (not failing or any(o.endswith("f") for o in prefix)):
             out.append(list(prefix))
         if len(prefix) - 1 >= maxlen:
             return
-        for op in ["U", "X", "R"] + [f"F{i}" for i in range(ntimers)]:
-            nt = ntimers + (1 if op in ("U", "R") else 0)      # upper bound on allocated timers
+        for op in alphabet + [f"F{i}" for i in range(ntimers)]:
+            nt = ntimers + (1 if op[0] in ("U", "R") else 0)      # upper bound on allocated timers
             rec(prefix + [op], nt)
     rec(["E"], 1)
     return out
@@ -269,6 +295,27 @@ try:
             for k in range(5): pt.set_cap_tensor(k, np.ones(1, dtype=complex))
             s = oqupy.TimeDependentSystem(ham); n[0] = 0
             oqupy.compute_dynamics(s, initial_state=rho, process_tensor=pt, subdiv_limit=None, progress_type="bar")
+        elif mode == "brokenstream":
+            # the output stream of a bar-mode computation starts failing (closed stdout / broken pipe)
+            import oqupy.util as u
+            real = threading.Timer
+            u.Timer = lambda interval, fn: real(0.05, fn)
+            class Broken(io.StringIO):
+                attempts = 0
+                def write(self, text):
+                    Broken.attempts += 1
+                    if Broken.attempts > 2: raise OSError("stream closed")
+                    return super().write(text)
+            br = Broken()
+            def ham2(t): return 0.3 * oqupy.operators.sigma("x")
+            t = oqupy.Tempo(oqupy.TimeDependentSystem(ham2), bath, par, rho, 0.0)
+            try:
+                with contextlib.redirect_stdout(br):
+                    t.compute(0.5, progress_type="bar")
+            except OSError:
+                pass
+            buf = type("B", (), {"getvalue": staticmethod(lambda: "x" * Broken.attempts)})()
+            raise Boom()
         elif mode == "stress":
             import oqupy.util as u, random
             real = threading.Timer
@@ -316,7 +363,7 @@ def run(chk):
     outil.Timer = FakeTimer
     validated = 0
     try:
-        for tr in traces(5 if thorough else 4):
+        for tr in traces(5 if thorough else 4) + traces(4 if thorough else 3, failing=True):
             rig = Rig()
             for op in tr:
                 rig.do(op)
@@ -326,8 +373,12 @@ def run(chk):
             chk.case(meta[-1], tuple(tr))
             validated += 1
             # property oracle: after exit no timer is armed, ever
-            if "X" in tr and 1 in rig.obs()[1:]:
-                chk.fail("timer-armed-after-exit", f"ProgressBar: an armed timer remains after exit() in the serial trace {tr}", {"trace": tr})
+            if ("X" in tr or "Xf" in tr) and 1 in rig.obs()[1:]:
+                key = "timer-armed-after-exit" if "Xf" not in tr else "timer-armed-after-failing-exit"
+                chk.fail(key, f"ProgressBar: an armed timer remains after exit() in the serial trace {tr}"
+                         + (" (f = the output stream raises in that operation's print)" if any(o.endswith("f") for o in tr) else ""), {"trace": tr})
+            if any(o.endswith("f") for o in tr):
+                chk.count("serial_traces_with_failing_prints")
         chk.count("serial_traces", validated)
 
         # ---- (ii) preemption of one thread's operation by the other at every shared-state op ----
@@ -395,7 +446,7 @@ def run(chk):
         outil.PROGRESS_DICT.pop("rec", None)
 
     # ---- (iv) runtime: real Timer threads in a child interpreter ---------------------------
-    for mode in ["tempo", "dynamics"] + ["stress"] * (3 if thorough else 1):
+    for mode in ["tempo", "dynamics", "brokenstream"] + ["stress"] * (3 if thorough else 1):
         alive, grew, err = run_child(mode, chk.seed)
         chk.search_cases += 1
         info = {"kind": "runtime", "mode": mode, "threads_alive": alive, "output_grew": grew}
@@ -403,7 +454,8 @@ def run(chk):
         if alive is None:
             chk.disagree("runtime harness", f"{mode}: child failed: {err}")
         elif alive or grew:
-            key = {"tempo": "thread-left:Tempo.compute", "dynamics": "exit-skipped:compute_dynamics", "stress": "timer-race"}[mode]
+            key = {"tempo": "thread-left:Tempo.compute", "dynamics": "exit-skipped:compute_dynamics", "stress": "timer-race",
+                   "brokenstream": "thread-left:failing-output-stream"}[mode]
             chk.fail(key, f"{mode}: {alive} thread(s) still alive after the call returned/raised; output grew by {grew} bytes afterwards", info)
 
     vals, errs = run_cases("C19", HEADER, exprs, chunk=400)
@@ -436,6 +488,7 @@ def run(chk):
                  "FakeTimer stands for threading.Timer in (i)/(ii); CPython's Timer and interpreter shutdown are exercised only in the child runs (iv)"],
         rule="(i) every operation sequence up to length 4 (thorough 5) after enter over {update, exit, fire i, run callback}; (ii) each of update/exit/"
              "callback preempted by the other thread at each of its shared-state operations; (iii) every progress-reporting API with a user "
-             "callable failing at evaluation 1..4 (8); (iv) child interpreters with the real Timer; distinct = distinct trace / scenario",
+             "callable failing at evaluation 1..4 (8); (iv) child interpreters with the real Timer (user failure, failing output stream, stress); "
+             "(i) includes every sequence up to length 3 (4) in which any of update/exit/callback has its print raise; distinct = distinct trace / scenario",
         assumptions=["thread pre-emption is modelled at the shared-state operations (Timer construction, start, cancel) only",
                      "interpreter exit is observed in child processes, not modelled"])
